@@ -240,6 +240,44 @@ class EvalError(Exception):
     pass
 
 
+def _pystr(x):
+    if isinstance(x, (np.floating,)):
+        return str(float(x))
+    if isinstance(x, (np.integer,)):
+        return str(int(x))
+    return str(x)
+
+
+_TYPES = {"builtins.float": (float, np.floating), "builtins.int": (int, np.integer), "builtins.str": (str,),
+          "numpy.floating": (float, np.floating), "numpy.integer": (int, np.integer), "builtins.bool": (bool,)}
+
+
+def _isinstance(v, names):
+    ts = ()
+    for n in str(names).split("|"):
+        ts += _TYPES.get(n, ())
+    if isinstance(v, bool) and "builtins.bool" not in str(names):
+        return False
+    return isinstance(v, ts)
+
+
+# calls with a fixed, library-independent meaning are interpreted; everything else stays uninterpreted
+INTERPRETED = {
+    "isinstance": _isinstance,
+    "str.format": lambda fmt, *xs: fmt.format(*xs),
+    "str.rstrip": lambda s_, *xs: s_.rstrip(*xs),
+    "str.lstrip": lambda s_, *xs: s_.lstrip(*xs),
+    "str.strip": lambda s_, *xs: s_.strip(*xs),
+    "str.ljust": lambda s_, *xs: s_.ljust(*[int(x) if not isinstance(x, str) else x for x in xs]),
+    "str.rjust": lambda s_, *xs: s_.rjust(*[int(x) if not isinstance(x, str) else x for x in xs]),
+    "str.replace": lambda s_, *xs: s_.replace(*xs),
+    "str.lower": lambda s_: s_.lower(),
+    "str.upper": lambda s_: s_.upper(),
+    "str.zfill": lambda s_, n: s_.zfill(int(n)),
+    "builtins.repr": repr,
+}
+
+
 def evaluate(t, env, cache=None):
     if cache is None:
         cache = {}
@@ -281,7 +319,7 @@ def _cond_value(c, env, cache):
             return np.logical_and(a, b) if c.op == "and" else np.logical_or(a, b)
         if c.op == "not":
             return np.logical_not(_cond_value(c.args[0], env, cache))
-        if c.op == "call":
+        if c.op == "call" and c.args[0] not in INTERPRETED:
             v = evaluate(c, env, cache)
             return bool(int(float(v) * 7919.0) % 2 == 0)
     v = evaluate(c, env, cache)
@@ -321,8 +359,12 @@ def _apply(op, a, t):
                 return (a[0] == a[1]) if op == "eq" else (a[0] != a[1]) if op == "ne" else False
             return f(_f(a[0]), _f(a[1]))
         if op == "and":
+            if isinstance(a[0], str) or isinstance(a[1], str):
+                return a[0] and a[1]
             return np.logical_and(a[0], a[1])
         if op == "or":
+            if isinstance(a[0], str) or isinstance(a[1], str):
+                return a[0] or a[1]
             return np.logical_or(a[0], a[1])
         if op == "not":
             return np.logical_not(a[0])
@@ -374,9 +416,27 @@ def _apply(op, a, t):
         if op == "sel":
             return a[0]
         if op == "call":
+            f = INTERPRETED.get(a[0])
+            if f is not None:
+                try:
+                    return f(*a[1:])
+                except Exception as e:  # noqa
+                    raise EvalError(f"{a[0]}: {e}")
             return _hashf(a[0], a[1:])
         if op == "str":
-            return "".join(str(x) for x in a)
+            return "".join(_pystr(x) for x in a)
+        if op == "fmt":
+            v = a[0]
+            if a[2] == 115:
+                v = str(v)
+            elif a[2] == 114:
+                v = repr(v)
+            try:
+                return format(v, a[1])
+            except Exception as e:  # noqa
+                raise EvalError(f"format({v!r}, {a[1]!r}): {e}")
+        if op == "kw":
+            return a[1]
     raise EvalError(f"cannot evaluate op {op!r}")
 
 
